@@ -1360,10 +1360,10 @@ func rR4(c *Ctx, plugins ...string) {
 							if !strings.Contains(rs.Run.Text, h.ID) {
 								continue
 							}
-							key := fmt.Sprintf("R4|%s|%s|untyped nil printed", p, c.Repo.funcAt(firstPosOf(rs, h.ID)))
+							key := fmt.Sprintf("R4|%s|%s|untyped nil printed", p, c.R.repo.funcAt(firstPosOf(rs, h.ID)))
 							if !seen[key] {
 								seen[key] = true
-								c.Rep.fail(Finding{Rule: "R4", Key: key, Where: []string{c.Repo.pos(firstPosOf(rs, h.ID))}, Plugin: p, Script: rs.Run.Script,
+								c.Rep.fail(Finding{Rule: "R4", Key: key, Where: []string{c.R.repo.pos(firstPosOf(rs, h.ID))}, Plugin: p, Script: rs.Run.Script,
 									Msg:    fmt.Sprintf("plugin %s accepts an argument whose type this path only established to be basic and prints the type: for the literal nil as argument that is `untyped nil`, which is not Go — goderive exits 0 and derived.gen.go does not parse", p),
 									Detail: "abstract path: " + rs.Run.describe() + "\nresidual:\n" + rs.Run.excerpt(30)})
 							}
@@ -1384,7 +1384,7 @@ func rR4(c *Ctx, plugins ...string) {
 				fmt.Sscanf(errs[0], "%d:", &line)
 				gf, where := "?", []string{}
 				if line > 0 && line-1 < len(rs.Run.LinePos) {
-					gf = c.Repo.funcAt(rs.Run.LinePos[line-1])
+					gf = c.R.repo.funcAt(rs.Run.LinePos[line-1])
 					where = append(where, rs.Run.where(c.Repo, line))
 				}
 				msg := stripLine(errs[0])
@@ -1392,7 +1392,7 @@ func rR4(c *Ctx, plugins ...string) {
 				if gf == "?" && len(rs.Funcs) > 0 {
 					// the error is in the synthetic call site: the derived function does not accept the call's argument types
 					if l := rs.line(rs.Funcs[0].Pos()); l > 0 && l-1 < len(rs.Run.LinePos) {
-						gf = c.Repo.funcAt(rs.Run.LinePos[l-1])
+						gf = c.R.repo.funcAt(rs.Run.LinePos[l-1])
 						where = append(where, rs.Run.where(c.Repo, l))
 					}
 					what = "the derived function does not accept arguments of the types the call was made with"
@@ -1646,7 +1646,7 @@ func predOnBasicKind(c *Ctx, plugin, pred string, k types.BasicKind) (val, known
 	if fi == nil || fi.Decl.Body == nil {
 		return false, false
 	}
-	in := &Interp{repo: c.Repo, plugin: "derive", decls: c.R.decls, or: &Oracle{}, memo: map[string]int{}, shape: 1, arities: []int{1, 0},
+	in := &Interp{repo: c.Repo, plugin: "derive", decls: c.GDecls, or: &Oracle{}, memo: map[string]int{}, shape: 1, arities: []int{1, 0},
 		preds: map[string]Value{}, stack: map[*ast.FuncDecl]int{}, imports: map[string]int{}, importUse: map[string]bool{}, holes: map[string]*Hole{}, g9mode: true,
 		intEq: map[string]int{"t.Kind()": int(k)}}
 	arg := &VOpaque{Origin: "t", Kind: "*types.Basic"}
